@@ -11,6 +11,7 @@ import ConfModel.Lemmas.DataTracerW
 import ConfModel.Lemmas.EnvelopeEncode
 import ConfModel.Lemmas.CallerBuf
 import ConfModel.Lemmas.H2Body
+import ConfModel.Model.H2Conn
 import ConfModel.Generated.C14Facts
 namespace ConfModel.Props.C14
 open ConfModel.DataTracer ConfModel.Envelopes
@@ -365,6 +366,28 @@ example :
       [[0, 0]].map BOp.data ++ List.replicate 2 BOp.flush ∧
     (hrun ⟨true, true, some⟩ ⟨false, true, some⟩ hinit [.reqData [0, 0], .reqEnd, .respData [0, 0, 0, 0, 0], .respEnd]).2 =
       [.q (Ev.data none 2), .qEnd, .p (Ev.data (some ⟨0, 0⟩) 0), .pEnd] := by decide
+
+/-! ### GOAWAY: which streams it ends -/
+
+/-- **A stream is abandoned by a GOAWAY iff its id is ABOVE the last-stream-id** (model of
+`setMaxStreamIDLocked`, `ConfModel.H2.setMax`): a stream of the table stays in it — and goes on being
+fed its DATA frames, so that its body events are those of all bytes that arrive — exactly when
+`id ≤ last`; in particular the stream whose id EQUALS the last-stream-id (graceful shutdown in the
+middle of a call) is still served. -/
+theorem goaway_abandons_iff (c : ConfModel.H2.L2) (last : Nat) (err : ConfModel.H2.Err)
+    (p : Nat × ConfModel.H2.Stream) (hp : p ∈ c.streams) :
+    (p ∈ (ConfModel.H2.setMax c last err).1.streams ↔ p.1 ≤ last) ∧
+    ((ConfModel.H2.setMax c last err).1.maxId = last) := by
+  constructor
+  · simp only [ConfModel.H2.setMax, List.mem_filter, hp, true_and]
+    simp [Nat.not_lt]
+  · rfl
+
+/-- the boundary itself: last-stream-id = id keeps the stream, last-stream-id = id - 1 ends it -/
+example (st : ConfModel.H2.Stream) (e : ConfModel.H2.Err) :
+    ((ConfModel.H2.setMax ⟨false, [(3, st)], 0⟩ 3 e).1.streams = [(3, st)]) ∧
+    ((ConfModel.H2.setMax ⟨false, [(3, st)], 0⟩ 2 e).1.streams = []) := by
+  simp [ConfModel.H2.setMax]
 
 /-! ### body ends of a stream traced at the connection level; finding F33 -/
 
